@@ -74,8 +74,8 @@ func (m *monitor) runConcurrent() {
 	defer os.RemoveAll(base)
 	procs := r.Pick(8, 16)
 	nops := r.Pick(400, 5000)
-	rounds := r.Pick(1, 5)
-	stormRounds := r.Pick(60, 300)
+	rounds := r.Pick(1, 3)
+	stormRounds := r.Pick(60, 150)
 	const nkeys = 3
 	tot := map[string]int{}
 	porc := map[string]int{}
